@@ -535,13 +535,15 @@ RTShapes == << << Sub(<<P2(0,0), P2(4,0), P2(4,4), P2(0,4)>>, TRUE, LinesOnly(3)
                << Sub(<<P2(0,0), P2(4,0), P2(4,1)>>, TRUE, LinesOnly(2)) >>,                                                                         \* sliver, miter ratio 8.2
                << Sub(<<P2(0,0), P2(3,0), P2(3,4)>>, FALSE, LinesOnly(2)) >>,                                                                        \* open hook
                << Sub(<<P2(0,3), P2(4,3), P2(1,0), P2(2,5), P2(3,0)>>, TRUE, LinesOnly(4)) >> >>                                                     \* pentagram-like
+IsSimilarity(m) == m[1] * m[1] + m[4] * m[4] = m[2] * m[2] + m[5] * m[5] /\ m[1] * m[2] + m[4] * m[5] = 0
 RTCols == <<"red", "blue", "lime", "black", "none", "orange", "gray", "redh", "black">>
 RTDraw(o) == LET pick == At(o, 1) % 8
                  subs == IF pick <= 4 THEN RTShapes[pick + 1]
                          ELSE LET n == 3 + (At(o, 2) % 3) IN << Sub(GenPts(o, 2, n), At(o, 13) % 4 # 0, LinesOnly(n - 1)) >>
-                 fill0 == Pk(o, 14, RTCols)  stroke == Pk(o, 15, <<"none", "none", "blue", "red", "black", "redh", "lime">>)
-                 fill == IF fill0 = "none" /\ stroke = "none" THEN "black" ELSE fill0
                  view == Pk(o, 16, RTViews)
+                 \* (under a view that is not a similarity the SVG writer outlines the stroke with Path.Stroke, whose correctness is C04's subject: fills only)
+                 fill0 == Pk(o, 14, RTCols)  stroke == IF IsSimilarity(view) THEN Pk(o, 15, <<"none", "none", "blue", "red", "black", "redh", "lime">>) ELSE "none"
+                 fill == IF fill0 = "none" /\ stroke = "none" THEN "black" ELSE fill0
              IN [subs |-> subs, view |-> view, fill |-> fill, stroke |-> stroke, frgba |-> RGBA(fill), srgba |-> RGBA(stroke), w |-> Pk(o, 17, <<1, 1, 2, 3>>),
                  join |-> Pk(o, 18, <<"miter", "miter", "bevel", "round">>), lim |-> Pk(o, 19, <<4, 4, 10, 2>>), cap |-> Pk(o, 20, <<"butt", "butt", "round", "square">>),
                  rule |-> Pk(o, 21, <<0, 0, 1>>)]
@@ -552,7 +554,6 @@ RTNF(dr) == LET segs == Flat([k \in 1..Len(dr.subs) |-> SubSegs(dr.subs[k])], 1)
             [kind |-> "poly", segs |-> segs, contours |-> [k \in 1..Len(dr.subs) |-> [j \in 1..Len(dr.subs[k].v) |-> Sc(dr.subs[k].v[j])]],
              joints |-> Flat([k \in 1..Len(dr.subs) |-> SubJoints(dr.subs[k])], 1), ends |-> Flat([k \in 1..Len(dr.subs) |-> SubEnds(dr.subs[k])], 1),
              box |-> <<SetMin({p[1] : p \in allp}), SetMin({p[2] : p \in allp}), SetMax({p[1] : p \in allp}), SetMax({p[2] : p \in allp})>>]
-IsSimilarity(m) == m[1] * m[1] + m[4] * m[4] = m[2] * m[2] + m[5] * m[5] /\ m[1] * m[2] + m[4] * m[5] = 0
 RTFeat(dr, n) == (IF dr.rule = 1 /\ \E k \in 1..(Grid(n.box, 5).nx * Grid(n.box, 5).ny) :
                          LET s == GridPt(Grid(n.box, 5), k) IN ~OnPath(n.contours, s) /\ Wind(n.contours, s) # 0 /\ Wind(n.contours, s) % 2 = 0
                   THEN {"evenodd-differs"} ELSE {})
